@@ -100,7 +100,7 @@ def rule_encode_header(ctx):
     ifs = _find_if(f, lambda n: isinstance(n.test, ast.Compare) and norm(n.test.left) == 'length')
     if len(ifs) != 1:
         raise AnalysisError('short/long length guard not found in %s' % f.short)
-    sets = _chain_sets(ctx, f, ifs[0], 'length', range(0, 70000))
+    sets = _chain_sets(ctx, f, ifs[0], 'length', range(0, ctx.scale(70000, 1200000)))
     short = set()
     for test, body, acc in sets:
         if any(isinstance(s, ast.Return) and norm(s.value) in ('(length,)',) for s in body):
